@@ -113,7 +113,14 @@ def run(ctx):
     vobj = [o for o in build_runtime_objs(ctx) if o.endswith("verifier.o")]
     h = build_harness(ctx, "h_schema", [os.path.join(VERIF, "harness/h_schema.c")], cobjs + vobj)
     nsch = 80 if ctx.quick() else 1500
-    schemas = [schemagen.gen_schema(r) for _ in range(nsch)]
+    # always first: objects with 1..5 fields declared in descending name order, a table whose only field is a union / union vector
+    # (hidden u_type before u), a two-member struct: every field count meets the sort-then-find path
+    T = [{"name": "N%d" % n, "fields": [{"name": "z%d" % (9 - k), "kind": "scalar", "type": "int"} for k in range(n)]} for n in range(1, 6)]
+    T += [{"name": "OnlyU", "fields": [{"name": "u", "kind": "union", "type": "U0"}]}, {"name": "OnlyUV", "fields": [{"name": "u", "kind": "vec_union", "type": "U0"}]}]
+    order_schema = {"namespace": "Or.Der", "enums": [{"name": "E0", "type": "ubyte", "values": [("Zb", 0), ("Ya", 1)]}],
+                    "structs": [{"name": "P2", "fields": [{"name": "y", "type": "int"}, {"name": "x", "type": "int"}], "force_align": None}],
+                    "unions": [{"name": "U0", "members": [("T", "N2"), ("T", "N1")]}], "tables": T, "root": "N2"}
+    schemas = [order_schema] + [schemagen.gen_schema(r) for _ in range(nsch)]
     # struct layouts and field ids from the Lean model (the theorems of C07 are about these functions)
     import schemamodel
     # (a force_align >= the natural alignment is chosen for some structs and written into the schema before it is rendered)
